@@ -27,8 +27,9 @@ DEFECTS = {
 def fault_cases():
     """(name, files, patterns, output, pre-existing output state)"""
     cases = []
-    for pre in ("absent", "file"):
-        pref = [{"path": "out/gen.go", "content": "OLD CONTENT\n"}] if pre == "file" else [{"path": "out", "content": "", "dir": True}]
+    for pre in ("absent", "file", "longfile"):
+        # longfile: the pre-existing file is longer than anything generated (an overwrite must not leave its tail behind)
+        pref = [{"path": "out/gen.go", "content": "OLD CONTENT\n"}] if pre == "file" else [{"path": "out/gen.go", "content": "// OLD CONTENT, LONG\n" * 6000}] if pre == "longfile" else [{"path": "out", "content": "", "dir": True}]
         base = [{"path": "cfg/a.yaml", "content": VALID}]
         cases.append(("ok/" + pre, base + pref, ["cfg/*.yaml"], "out/gen.go"))
         for dn, txt in DEFECTS.items():
@@ -40,6 +41,11 @@ def fault_cases():
         cases.append(("matched-twice/" + pre, base + pref, ["cfg/*.yaml", "cfg/a.yaml"], "out/gen.go"))
         cases.append(("matched-twice-two-files/" + pre, base + pref + [{"path": "cfg/b.yaml", "content": "parameters: {z: 2}\n"}],
                       ["cfg/*.yaml", "cfg/b.yaml", "cfg/a.*"], "out/gen.go"))
+        # the same file reached through differently spelled paths (the duplicate check works on cleaned paths)
+        cases.append(("matched-twice-dot/" + pre, base + pref, ["cfg/a.yaml", "./cfg/a.yaml"], "out/gen.go"))
+        cases.append(("matched-twice-slashes/" + pre, base + pref, ["cfg//a.yaml", "cfg/a.yaml"], "out/gen.go"))
+        cases.append(("matched-twice-dotdot-glob/" + pre, base + pref, ["cfg/../cfg/a.yaml", "cfg/*.yaml"], "out/gen.go"))
+        cases.append(("matched-twice-unclean-both/" + pre, base + pref, ["./cfg/a.yaml", "cfg/./a.yaml"], "out/gen.go"))
         cases.append(("one-ok-one-missing-pattern/" + pre, base + pref, ["cfg/*.yaml", "nothing/*.yaml"], "out/gen.go"))
         cases.append(("second-file-broken/" + pre, base + pref + [{"path": "cfg/b.yaml", "content": "a: [\n"}], ["cfg/*.yaml"], "out/gen.go"))
         cases.append(("empty-file/" + pre, pref + [{"path": "cfg/a.yaml", "content": ""}], ["cfg/*.yaml"], "out/gen.go"))
@@ -117,6 +123,10 @@ def run(tier, seed, replay):
             out.violation("quiet-prints:" + cls, "--quiet printed something", rep)
         if len(samples) < 5 and ex == 1 and len(nontrivial) % 9 == 1:
             samples.append({"fault": what, "flags": sp["flags"], "exit": ex, "errors": ob.get("errors"), "out_before": before, "out_after": after})
+    # the written bytes depend on the input only: absent / short / long pre-existing output files give the same file
+    for key, hs in by_key.items():
+        if len(hs) > 1:
+            out.violation("output-depends-on-old-file", "the same input produces different -o contents depending on what the path held before", {"input": json.loads(key), "hashes": sorted(h or "" for h in hs)})
     # quiet / non-quiet pairs of the fault matrix must agree on exit and file effect
     idx = {}
     for k, sp in enumerate(specs):
